@@ -11,7 +11,7 @@ import Duckling.Lemmas.RBasic
                                  current state, stopping early only on BREAK / RETURN / an error — never because the budget ran out;
   * `C06_counter_bound`         inside iteration `i` the counter variable holds the integer `i`;
   * `C06_counter_gone`          a counter name that was not visible at loop entry does not exist after any iteration;
-  * `C06_loop_result_signal`    whatever happens inside, a finished REPEAT or WHILE yields NORMAL or RETURN — BREAK and CONTINUE
+  * `C06_repeat_result_signal` / `C06_while_result_signal`    whatever happens inside, a finished REPEAT or WHILE yields NORMAL or RETURN — BREAK and CONTINUE
                                  never leave the loop that caught them, so an enclosing loop carries on;
   * `C06_while_iteration`       WHILE evaluates its condition in the iteration's fresh child of the *current* state (counter
                                  bound to the number of completed iterations) before every iteration and stops, keeping the
